@@ -488,9 +488,156 @@ def _inline_attr_aliases(fn):
     R().visit(fn)
 
 
+def _mark_noreturn(tree):
+    """Module-level helper functions that never return (`def _fail_shape(a, b): raise ShapeMismatch(...)`) end the path of whoever calls
+    them.  A statement that is a call of such a helper is rewritten so that every rule sees it:
+      * the helper is a single `raise E(...)` and the arguments are plain: the statement becomes that raise with the arguments put in (an exact
+        inlining);
+      * otherwise the call stays and an unreachable `raise` of the helper's exception type is placed after it (marked `_synthetic`)."""
+    import copy
+
+    def body_of(fn):
+        return [x for x in fn.body if not (isinstance(x, ast.Expr) and isinstance(x.value, ast.Constant) and isinstance(x.value.value, str))]
+    funcs = {n.name: n for n in tree.body if isinstance(n, ast.FunctionDef) and not n.decorator_list}
+    raisers = {}
+
+    def always(stmts):
+        if not stmts:
+            return False
+        last = stmts[-1]
+        if isinstance(last, ast.Raise):
+            return True
+        if isinstance(last, ast.If) and last.orelse:
+            return always(last.body) and always(last.orelse)
+        if isinstance(last, ast.Expr) and isinstance(last.value, ast.Call) and isinstance(last.value.func, ast.Name) and last.value.func.id in raisers:
+            return True
+        return False
+    for _ in range(3):
+        grew = False
+        for nm, fn in funcs.items():
+            if nm in raisers:
+                continue
+            if any(isinstance(x, (ast.Return, ast.Yield, ast.YieldFrom)) for x in ast.walk(fn)):
+                continue
+            if always(body_of(fn)):
+                raisers[nm] = fn
+                grew = True
+        if not grew:
+            break
+    if not raisers:
+        return tree
+
+    def plain(e):
+        return all(isinstance(x, (ast.Name, ast.Attribute, ast.Constant, ast.Subscript, ast.BinOp, ast.UnaryOp, ast.operator, ast.unaryop, ast.expr_context,
+                                  ast.Tuple, ast.List, ast.Slice)) or (isinstance(x, ast.Call) and isinstance(x.func, ast.Name) and x.func.id in ("len", "str"))
+                   for x in ast.walk(e))
+
+    class Sub(ast.NodeTransformer):
+        def __init__(s, m):
+            s.m = m
+
+        def visit_Name(s, n):
+            return ast.copy_location(copy.deepcopy(s.m[n.id]), n) if n.id in s.m and isinstance(n.ctx, ast.Load) else n
+
+    class R(ast.NodeTransformer):
+        def visit_FunctionDef(s, n):
+            if n.name in raisers and n in tree.body:
+                return n
+            return s.generic_visit(n)
+
+        def generic_visit(s, node):
+            for fld in ("body", "orelse", "finalbody"):
+                blk = getattr(node, fld, None)
+                if isinstance(blk, list) and blk and isinstance(blk[0], ast.stmt):
+                    out = []
+                    for st in blk:
+                        st = s.visit(st)
+                        out.append(st)
+                        if isinstance(st, ast.Expr) and isinstance(st.value, ast.Call) and isinstance(st.value.func, ast.Name) and st.value.func.id in raisers:
+                            fn = raisers[st.value.func.id]
+                            call = st.value
+                            b = body_of(fn)
+                            a = fn.args
+                            names = [x.arg for x in a.posonlyargs + a.args]
+                            simple = (len(b) == 1 and isinstance(b[0], ast.Raise) and b[0].exc is not None and not call.keywords and not a.vararg and not a.kwarg
+                                      and not a.kwonlyargs and not a.defaults and len(call.args) == len(names)
+                                      and not any(isinstance(x, ast.Starred) for x in call.args) and all(plain(x) for x in call.args))
+                            if simple:
+                                new = ast.Raise(exc=Sub(dict(zip(names, call.args))).visit(copy.deepcopy(b[0].exc)), cause=None)
+                                out[-1] = ast.copy_location(new, st)
+                            else:
+                                types = [x.exc.func if isinstance(x.exc, ast.Call) else x.exc for x in ast.walk(fn) if isinstance(x, ast.Raise) and x.exc is not None]
+                                t = copy.deepcopy(types[0]) if types and all(ast.dump(y) == ast.dump(types[0]) for y in types) else ast.Name(id="Exception", ctx=ast.Load())
+                                new = ast.Raise(exc=ast.Call(func=t, args=[ast.Constant(value=f"unreachable: {fn.name} never returns")], keywords=[]), cause=None)
+                                new._synthetic = True
+                                out.append(ast.copy_location(new, st))
+                    setattr(node, fld, out)
+            for h in getattr(node, "handlers", []) or []:
+                s.generic_visit(h)
+            return node
+    R().generic_visit(tree)
+    return tree
+
+
+def _fold_enums(tree):
+    """`class _Prec(enum.Enum): NONE = None; CENTRAL = 'c'` at module level: `_Prec.CENTRAL.value` is the literal 'c', `_Prec.CENTRAL.name` the
+    literal 'CENTRAL', and `tuple(p.value for p in _Prec)` / `[p.value for p in _Prec]` the display of the member values in order."""
+    enums = {}
+    for n in tree.body:
+        if isinstance(n, ast.ClassDef) and any((isinstance(b, ast.Attribute) and b.attr in ("Enum", "IntEnum", "StrEnum", "Flag")) or
+                                               (isinstance(b, ast.Name) and b.id in ("Enum", "IntEnum", "StrEnum")) for b in n.bases):
+            members = {}
+            for st in n.body:
+                if isinstance(st, ast.Assign) and len(st.targets) == 1 and isinstance(st.targets[0], ast.Name) and isinstance(st.value, ast.Constant):
+                    members[st.targets[0].id] = st.value
+                elif isinstance(st, (ast.Expr, ast.Pass, ast.FunctionDef)):
+                    continue
+                else:
+                    members = None
+                    break
+            if members:
+                enums[n.name] = members
+    if not enums:
+        return tree
+    import copy
+
+    class F(ast.NodeTransformer):
+        def visit_Attribute(s, n):
+            s.generic_visit(n)
+            v = n.value
+            if n.attr in ("value", "name") and isinstance(n.ctx, ast.Load) and isinstance(v, ast.Attribute) and isinstance(v.value, ast.Name) \
+                    and v.value.id in enums and v.attr in enums[v.value.id]:
+                c = copy.deepcopy(enums[v.value.id][v.attr]) if n.attr == "value" else ast.Constant(value=v.attr)
+                return ast.copy_location(c, n)
+            return n
+
+        def _members(s, comp):
+            if len(comp.generators) == 1 and not comp.generators[0].ifs and isinstance(comp.generators[0].iter, ast.Name) and comp.generators[0].iter.id in enums \
+                    and isinstance(comp.generators[0].target, ast.Name) and isinstance(comp.elt, ast.Attribute) and comp.elt.attr == "value" \
+                    and isinstance(comp.elt.value, ast.Name) and comp.elt.value.id == comp.generators[0].target.id:
+                return [copy.deepcopy(c) for c in enums[comp.generators[0].iter.id].values()]
+            return None
+
+        def visit_ListComp(s, n):
+            m = s._members(n)
+            return ast.copy_location(ast.List(elts=m, ctx=ast.Load()), n) if m is not None else s.generic_visit(n)
+
+        def visit_Call(s, n):
+            if isinstance(n.func, ast.Name) and n.func.id in ("tuple", "list") and len(n.args) == 1 and not n.keywords \
+                    and isinstance(n.args[0], (ast.GeneratorExp, ast.ListComp)):
+                m = s._members(n.args[0])
+                if m is not None:
+                    node = ast.Tuple(elts=m, ctx=ast.Load()) if n.func.id == "tuple" else ast.List(elts=m, ctx=ast.Load())
+                    return ast.copy_location(node, n)
+            return s.generic_visit(n)
+    return F().visit(tree)
+
+
 def _canonicalise(tree):
     from .desugar import desugar
     tree = desugar(tree)
+    tree = _fold_enums(tree)
+    tree = _mark_noreturn(tree)
     tree = _Canon().visit(tree)
     for n in ast.walk(tree):
         if isinstance(n, (ast.FunctionDef, ast.AsyncFunctionDef)):
